@@ -100,6 +100,11 @@ GUARDS = {
     # raises AssertionError("lstat(...): Not a directory") from the dirstate code (commit
     # and revert of selected files, status of selected files)
     "bzr_enotdir_filter": True,
+    # bzr: DirStateWorkingTree.unversion([d]) compares a byte with a str
+    # (block[0][len(path)] == "/"), so only d's own dirblock is dropped: entries in
+    # subdirectories of d (d/sub/f) stay in the dirstate without a parent (_validate fails,
+    # iter_changes: AssertionError 'Could not find target parent in wt')
+    "bzr_unversion_nested": False,  # fixed in /repo b6f3490: territory always explored
     # bzr: revert that re-creates a removed (unversioned) directory and has to move a still
     # versioned entry back into it raises DuplicateKey (the directory is versioned once by
     # _alter_files and once more by resolve_unversioned_parent)
@@ -685,6 +690,17 @@ class MTree:
         if "git_basis_lookup_below_blob" in self.guards and any(x in self.basis for x in ancestors(b) if x):
             raise Unmodelled("git_basis_lookup_below_blob")
 
+    def _op_unversion(self, op):
+        """WorkingTree.unversion([p]): p and everything below stop being versioned."""
+        p = op["p"]
+        if p == "" or not self.is_versioned(p):
+            raise Unmodelled()
+        if self.flavour == "bzr" and "bzr_unversion_nested" in self.guards:
+            if any(parent(q) != p for q in self.inv_below(p)):
+                raise Unmodelled("bzr_unversion_nested")
+        self.unversion(p)
+        return "ok"
+
     def _rename_after(self, a, b, op):
         """rename_one / move with after=True: only the versioned layer changes; the disk is
         taken as the user left it."""
@@ -1098,6 +1114,11 @@ class MTree:
             bp = bids[fid]
             _f, bkind, bdata, bexec = self.basis[bp]
             n = byid.get(fid)
+            if n is not None and n.get("ghost") and fid in wids and self.inv[wids[fid]][1] != bkind:
+                # missing on disk and recorded with another kind than in the basis (re-added
+                # by hand with the old id): the recorded kind is not refreshed by revert and
+                # a restored child then meets "parent is not a directory"
+                raise Unmodelled()
             if n is None:
                 n = {"kind": None, "data": None, "exec": False, "kids": {}, "fid": fid, "ver": True, "new": True}
                 byid[fid] = n
@@ -1239,7 +1260,7 @@ def lifted_guards(prop):
     return sorted(out)
 
 
-STATE_CHANGING = {"write", "mkdir_disk", "symlink", "kindchange", "rm_disk", "chmod", "mkdir", "add", "smart_add", "remove", "rename", "move", "commit", "revert"}
+STATE_CHANGING = {"unversion", "write", "mkdir_disk", "symlink", "kindchange", "rm_disk", "chmod", "mkdir", "add", "smart_add", "remove", "rename", "move", "commit", "revert"}
 
 # --------------------------------------------------------------------------------------
 # workload generation (pure: uses only rng and the model)
@@ -1255,6 +1276,7 @@ DEFAULT_WEIGHTS = {
     "rename": 4,
     "move": 3,
     "rename_after": 2,
+    "unversion": 2,
     "chmod": 1,
     "symlink": 1,
     "kindchange": 1,
@@ -1273,6 +1295,14 @@ def make_namespace(rng):
     names = ["a", "b", "c", "d", "e"]
     want = rng.randint(3, 6)
     out = []
+    if rng.random() < 0.3:
+        # a directory X and a sibling whose name has X as a prefix ("d", "d2") and which
+        # holds a subdirectory with entries: trips prefix tests on paths without separator
+        x = rng.choice(names)
+        s, h = rng.choice(names), rng.choice(names)
+        out = [x, x + "2", x + "2/" + s, x + "2/" + s + "/" + h]
+        out.append(x + "/" + rng.choice(names))
+        want = max(want, len(out))
     while len(out) < want:
         parents = [""] + [p for p in out if p.count("/") < 2]
         par = rng.choice(parents[-3:] if rng.random() < 0.5 else parents)
@@ -1319,6 +1349,25 @@ class Gen:
         seq = sorted(seq)
         return self.rng.choice(seq) if seq else None
 
+    def build_step(self):
+        """Create one more path of the namespace; what has descendants in the namespace
+        becomes a directory most of the time."""
+        m, rng = self.m, self.rng
+        p = self.new_path()
+        if not p:
+            return None
+        if any(strictly_inside(p, q) for q in self.names):
+            kind = rng.choice(["mkdir", "mkdir", "mkdir_disk", "mkdir_disk", "write"])
+        else:
+            kind = rng.choice(["write", "write", "write", "mkdir", "mkdir_disk", "symlink"])
+        if kind == "write":
+            return {"o": "write", "p": p, "n": self.fresh()}
+        if kind == "symlink":
+            return {"o": "symlink", "p": p, "n": self.fresh()}
+        if kind == "mkdir_disk":
+            return {"o": "mkdir_disk", "p": p}
+        return {"o": "mkdir", "p": p, "id": "d%d" % self.fresh()}
+
     def pick_source(self):
         """A versioned path to rename / move; directories with versioned contents are
         preferred half of the time."""
@@ -1362,7 +1411,9 @@ class Gen:
             k = rng.choice([k for k in (FILE, DIR, LINK) if k != m.dkind(p)])
             return {"o": "kindchange", "p": p, "k": k, "n": self.fresh()}
         if kind == "rm_disk":
-            p = self.pick([p for p in m.disk if m.is_versioned(p)] or list(m.disk))
+            vd = [p for p in m.disk if m.is_versioned(p)]
+            twins = [p for p in vd if m.dkind(p) == DIR and any(q != p and q.startswith(p) and not inside(p, q) for q in m.versioned_paths())]
+            p = self.pick(twins if twins and rng.random() < 0.5 else vd or list(m.disk))
             return p and {"o": "rm_disk", "p": p}
         if kind == "chmod":
             p = self.pick([p for p in m.disk if m.dkind(p) == FILE])
@@ -1403,6 +1454,12 @@ class Gen:
             return b and {"o": "rename", "p": a, "to": b}
         if kind == "rename_after":
             return self.rename_after()
+        if kind == "unversion":
+            vs = [p for p in m.versioned_paths() if p]
+            dirs = [p for p in vs if m.dkind(p) == DIR or any(strictly_inside(p, q) for q in vs)]
+            twins = [p for p in dirs if any(q != p and q.startswith(p) and not inside(p, q) for q in vs)]
+            p = self.pick(twins if twins and rng.random() < 0.7 else dirs if dirs and rng.random() < 0.7 else vs)
+            return p and {"o": "unversion", "p": p}
         if kind == "move":
             a = self.pick_source()
             if not a:
@@ -1510,12 +1567,19 @@ def gen_ops(rng, model, n, weights, names=None):
     # most runs start by growing a tree (so that later operations meet directories with
     # several versioned children), then version it in one go and sometimes commit it
     script = []
-    if rng.random() < 0.7:
+    twin = [x for x in names if x + "2" in names]
+    if rng.random() < 0.7 or twin:
         k = min(max(2, n // 3), len(names))
-        script = [rng.choice(["write", "write", "write", "mkdir", "mkdir_disk", "symlink"]) for _ in range(k)]
+        if twin:
+            k = len(names) + 1
+        script = ["build"] * k
         script.append("smart_add_root")
         if rng.random() < 0.6:
             script.append("commit_all")
+        if twin and rng.random() < 0.7:
+            # stop versioning X next to its look-alike X2/...: directly, or by deleting it
+            # and letting commit unversion what is missing
+            script += rng.choice([["twin_unversion"], ["twin_rm", "commit_all"]])
     while len(ops) < n and tries < n * 30:
         tries += 1
         kind = rng.choice(pool)
@@ -1526,6 +1590,12 @@ def gen_ops(rng, model, n, weights, names=None):
             elif kind == "commit_all":
                 k2 = g.fresh()
                 op = {"o": "commit", "paths": None, "rev": "rev-%d" % k2, "t": 1700000000 + k2}
+            elif kind == "build":
+                op = g.build_step()
+            elif kind == "twin_unversion":
+                op = {"o": "unversion", "p": twin[0]}
+            elif kind == "twin_rm":
+                op = {"o": "rm_disk", "p": twin[0]}
             else:
                 op = g.propose(kind)
             if op and model.classify(op) == "ok":
@@ -1612,11 +1682,27 @@ def settle_randomness(seed):
     batch._reseed(seed)
 
 
+class IndexCrash(BaseException):
+    """The simulated process died inside a write of the git index."""
+
+
 def install_index_seam():
-    """Scheduling points at the file operations of the git index (idempotent): creation of
-    index.lock (dulwich GitFile), reading the index (Index), and the commit / abort of the
-    lock file.  Only active while a Sim runs several actors; otherwise a plain pass-through.
-    (bzr trees need nothing: their checkout lock lives on the sim+file:// transport.)"""
+    """Seam at the file operations of the git index (idempotent): creation of index.lock
+    (dulwich GitFile), reading the index (Index), writes into the lock file or - where the
+    code writes it in place - into `index` itself, and the commit / abort of the lock file.
+
+    * scheduling points while a Sim runs several actors (two-writer phase);
+    * fault point while `sim.index_fault = {"mode": "error" | "crash", "at": k, "frac": f,
+      "active": bool}` is set (set it before the lock is taken, switch "active" on for the
+      window in which the fault may strike): the k-th write into the index (lock) file writes only the fraction f of its
+      data, then raises OSError(ENOSPC) ("error") or the process dies ("crash": IndexCrash is
+      raised and every later operation on these files is without effect - the lock file is
+      neither committed nor removed, exactly what a killed process leaves behind).
+    Otherwise a plain pass-through.  (bzr trees need no such seam for scheduling: their
+    checkout lock lives on the sim+file:// transport.)"""
+    import builtins
+    import errno
+
     import breezy.git.workingtree as gw
 
     from simkit.sim import CTX
@@ -1625,19 +1711,53 @@ def install_index_seam():
         return
     real_gitfile, real_index = gw.GitFile, gw.Index
 
+    def cur():
+        return getattr(CTX, "sim", None)
+
     def multi_sim():
-        s = getattr(CTX, "sim", None)
+        s = cur()
         return s if s is not None and s.multi else None
 
-    class LockFileProxy:
-        def __init__(self, f):
-            self.__dict__["_f"] = f
-            self.__dict__["_done"] = False
+    def fault_of(s):
+        return getattr(s, "index_fault", None) if s is not None else None
+
+    class IndexFileProxy:
+        """The lock file (GitFile) or the index opened for writing in place."""
+
+        def __init__(self, f, what):
+            self.__dict__.update(_f=f, _done=False, _what=what)
 
         def __getattr__(self, name):
             return getattr(self._f, name)
 
+        def write(self, data):
+            s = cur()
+            ft = fault_of(s)
+            if ft is not None and ft.get("dead"):
+                return len(data)
+            if ft is not None and ft.get("active") and not ft.get("fired"):
+                ft["writes"] = ft.get("writes", 0) + 1
+                if ft["writes"] == ft["at"]:
+                    ft["fired"] = True
+                    part = bytes(data)[: int(len(data) * ft.get("frac", 0.5))]
+                    self._f.write(part)
+                    try:
+                        self._f.flush()
+                    except Exception:  # noqa: BLE001
+                        pass
+                    kind = "index_write_" + ft["mode"]
+                    s.faults_fired[kind] += 1
+                    s.event("main", "index.write", self._what, "FAULT:" + ft["mode"], vol=len(part))
+                    if ft["mode"] == "crash":
+                        ft["dead"] = True
+                        raise IndexCrash()
+                    raise OSError(errno.ENOSPC, "No space left on device (injected)")
+            return self._f.write(data)
+
         def _finish(self, op, fn):
+            ft = fault_of(cur())
+            if ft is not None and ft.get("dead"):
+                return None  # the process is gone: nothing is committed, nothing cleaned up
             s = None if self._done else multi_sim()
             self.__dict__["_done"] = True
             if s is not None:
@@ -1648,19 +1768,22 @@ def install_index_seam():
             return r
 
         def close(self):
-            return self._finish("index.commit", self._f.close)
+            return self._finish("index.commit" if self._what == "index.lock" else "index.close", self._f.close)
 
         def abort(self):
-            return self._finish("index.abort", self._f.abort)
+            return self._finish("index.abort", self._f.abort)  # AttributeError for a plain file, as in real life
 
     def gitfile(path, mode="rb", *a, **kw):
-        s = multi_sim() if "w" in mode and os.path.basename(path) == "index" else None
-        if s is None:
+        s = cur()
+        if "w" not in mode or os.path.basename(path) != "index" or (multi_sim() is None and fault_of(s) is None):
             return real_gitfile(path, mode, *a, **kw)
-        s.before_op("index.lock", "index", True)
+        ms = multi_sim()
+        if ms is not None:
+            ms.before_op("index.lock", "index", True)
         f = real_gitfile(path, mode, *a, **kw)  # FileLocked when another writer holds it
-        s.after_op("index.lock", "index")
-        return LockFileProxy(f)
+        if ms is not None:
+            ms.after_op("index.lock", "index")
+        return IndexFileProxy(f, "index.lock")
 
     def index(path, *a, **kw):
         s = multi_sim()
@@ -1671,9 +1794,19 @@ def install_index_seam():
             s.after_op("index.read", os.path.basename(str(path)))
         return r
 
+    def seam_open(file, mode="r", *a, **kw):
+        s = cur()
+        ft = fault_of(s)
+        if ft is None or isinstance(file, int) or "w" not in mode or os.path.basename(str(file)) != "index":
+            return builtins.open(file, mode, *a, **kw)
+        if ft.get("dead"):
+            raise IndexCrash()
+        return IndexFileProxy(builtins.open(file, mode, *a, **kw), "index")
+
     gitfile._verif_seam = True
     gw.GitFile = gitfile
     gw.Index = index
+    gw.open = seam_open
 
 
 WRITER_OPS = ("add", "rename", "remove")
@@ -2023,6 +2156,8 @@ def apply_op(tree, model, op):
     elif o == "smart_add":
         action = SmartAddIds(model, op) if model.flavour == "bzr" else None
         tree.smart_add([os.path.join(root, op["p"]) if op["p"] else root], action=action)
+    elif o == "unversion":
+        tree.unversion([op["p"]])
     elif o == "remove":
         tree.remove([op["p"]], keep_files=op["keep"], force=op["force"])
     elif o == "rename":
